@@ -1,6 +1,6 @@
 SPECIFICATION Spec
 CONSTANTS
-  Inputs = {"zine", "rot", "text", "walden", "form", "simple3", "nested5", "tree5", "objstm4"}
+  Batches <- BatchesSim
   MaxLen = 3
   Emit = TRUE
 INVARIANTS TypeOK EmitCase
